@@ -51,7 +51,7 @@ func checkC14(P *Prog, r *Result) {
 		"handle it identically: call, on error exactly one issue and return, else continue; (nested-from-parent) nested struct schemas obtain their provider from the parent provider. " +
 		"Equality of destination and issues across renderings of one record is value-level and not decided."
 	P.checkGetByFieldAgreement(r, "C14/getbyfield-agreement")
-	r.floor("C14/getbyfield-agreement", 5)
+	r.floor("C14/getbyfield-agreement", 3)
 	// the key of a field depends only on (field, schema key, the provider's own tag): the canonical return table
 	P.checkTagPriority(r, "C14/key-resolution")
 	// string-typed leaves (form/query/env) become the same values as typed leaves (maps/JSON) through the
@@ -129,7 +129,7 @@ func checkC14(P *Prog, r *Result) {
 			}
 		}
 	}
-	r.floor("C14/factory-once", 2)
+	r.floor("C14/factory-once", 1)
 
 	// ---- factory-twins ----
 	sig := map[string]string{}
@@ -163,7 +163,7 @@ func checkC14(P *Prog, r *Result) {
 			r.bad("C14/factory-twins", k, "-", "factory handling differs from the documented protocol (call; on error exactly one issue and stop; else continue with the result): "+sig[k])
 		}
 	}
-	r.floor("C14/factory-twins", 2)
+	r.floor("C14/factory-twins", 1)
 
 	// ---- nested-from-parent ----
 	P.checkTagReachesNested(r, "C14/nested-from-parent")
@@ -265,7 +265,7 @@ func checkC15(P *Prog, r *Result) {
 			r.bad("C15/dispatch-table", "Config.Parsers."+nm, P.pos(f.Pos()), fmt.Sprintf("the %s slot does not read its documented source (source: %q, ParseForm called: %v)", nm, src, parseForm))
 		}
 	}
-	r.floor("C15/dispatch-table", 4)
+	r.floor("C15/dispatch-table", 3)
 
 	// ---- decode-failure ----
 	P.checkDecodeFailure(r)
@@ -428,7 +428,7 @@ func (P *Prog) checkDecodeFailure(r *Result) {
 			r.ok("C15/decode-failure", fname(fn), P.pos(fn.Pos()), fmt.Sprintf("%d factory-error path(s): exactly one issue, then return; no child, test or destination write", n))
 		}
 	}
-	r.floor("C15/decode-failure", 4)
+	r.floor("C15/decode-failure", 2)
 }
 
 // checkProviderNonNil: every DataProvider value on which the struct pipeline
@@ -573,6 +573,12 @@ func (P *Prog) checkProviderNonNil(r *Result, rule string) {
 									}
 									if b2, isB := constBool(rv); isB && !b2 {
 										return // (nil, false): the failure protocol, tested by the caller
+									}
+								}
+								// returned only after it was tested non-nil (`if dp == nil { return &Empty{}, true }; return dp, true`)
+								for _, gd := range guardsOf(in2.Block()) {
+									if y, eq, isN := isNilCompare(gd.If.Cond); isN && cv(y) == cv(rvs[idx]) && gd.True != eq {
+										return
 									}
 								}
 								switch cv(rvs[idx]).(type) {
